@@ -86,7 +86,8 @@ InitConn(h, k) ==
 
 InitOb ==
   [ csent |-> <<>>, tsent |-> 0, tlog |-> <<>>, clog |-> <<>>, mlog |-> <<>>, dials |-> 0,
-    acceptAt |-> -1, closeAt |-> -1, cfinAt |-> -1, preDoneAt |-> -1, lastSendAt |-> -1,
+    acceptAt |-> -1, closeAt |-> -1, cfinAt |-> -1, preDoneAt |-> -1, addrDoneAt |-> -1, lastSendAt |-> -1,
+    stalls |-> {},            \* (records of the real code only) observations the harness waited for in vain
     tfinPolite |-> FALSE,     \* the target sent its FIN only after it had seen the proxy's FIN
     drain |-> "",             \* how the probe drain ended
     timeout |-> Timeout,
@@ -144,7 +145,8 @@ ClientSend(c, tok) ==
           [o EXCEPT !.csent = Append(@, tok),
                     !.wire.cs = @ + W(tok),
                     !.lastSendAt = now,
-                    !.preDoneAt = IF @ = -1 /\ tok.k = "pre" /\ Units(c) + tok.v = 2 THEN now ELSE @],
+                    !.preDoneAt = IF @ = -1 /\ tok.k = "pre" /\ Units(c) + tok.v = 2 THEN now ELSE @,
+                    !.addrDoneAt = IF @ = -1 /\ tok.k \in {"addr", "addrplus", "addrrest"} THEN now ELSE @],
           "CSend", KindCode(tok.k) * 10 + tok.v)
 
 ClientFin(c) ==
@@ -425,6 +427,8 @@ Fair == /\ \A c \in Conns : WF_vars(MainC(c)) /\ WF_vars(AuxC(c))
         /\ \A c \in Conns : WF_vars(Connect(c)) /\ WF_vars(ClientFin(c)) /\ WF_vars(TargetFin(c))
         /\ WF_vars(Serve) /\ WF_vars(Tick) /\ WF_vars(CloseListener)
 LiveSpec == Spec /\ Fair
+\* only the proxy's goroutines are fair: neither peer is obliged to do anything (half-close independence)
+LiveSpecProxyOnly == Spec /\ \A c \in Conns : WF_vars(MainC(c)) /\ WF_vars(AuxC(c))
 
 (* ======================================================================== *)
 (* PROPERTY LAYER                                                           *)
@@ -450,8 +454,12 @@ MayAuth(s, o)  == s.hs = "valid" /\ o.preDoneAt # -1 /\ (o.acceptAt = -1 \/ o.pr
 MustAuth(s, o) == s.hs = "valid" /\ o.preDoneAt # -1 /\ (o.acceptAt = -1 \/ o.preDoneAt < DeadlineOf(o) - SlackSched)
 MustFail(s, o) == s.hs # "valid" \/ (o.acceptAt # -1 /\ o.preDoneAt > DeadlineOf(o) + SlackSched)
                    \/ (o.preDoneAt = -1 /\ Reported(o))
-\* a connection on which nothing went wrong and whose target was dialled
-Clean(s, o) == MustAuth(s, o) /\ s.tk = "ok" /\ ~OHasBad(o) /\ ~s.trst /\ o.dials > 0
+\* the complete target address was sent in time / was surely not
+AddrSent(o)    == o.addrDoneAt # -1 /\ o.addrDoneAt < DeadlineOf(o) - SlackSched
+AddrMissing(o) == (o.addrDoneAt = -1 /\ Reported(o)) \/ (o.addrDoneAt # -1 /\ o.addrDoneAt > DeadlineOf(o) + SlackSched)
+\* a connection on which nothing went wrong: valid fresh opener and valid address in time, reachable target, no
+\* corrupt chunk, no reset
+Clean(s, o) == MustAuth(s, o) /\ AddrSent(o) /\ s.tk = "ok" /\ ~OHasBad(o) /\ ~s.trst
 
 (* ---- C02 --------------------------------------------------------------- *)
 \* no loss, duplication, reordering, invention - on every connection, clean or not
@@ -468,6 +476,11 @@ C02_CompleteAtClose(s, o) ==
      /\ DataOf(o.tlog) = Payload(o) /\ Has(o.tlog, 0)
      /\ DataOf(o.clog) = Ids(o.tsent) /\ Has(o.clog, 0)
      /\ ClosedRec(o).s = "OK"
+
+\* (records of the real code) on a clean connection every delivery and every half-close that the model's behaviour has
+\* before the peer's next action did happen before it, within the harness' wait bound: data and FIN of one direction do
+\* not wait for the other direction.  In the model this is C02_FinToTargetLive / C02_FinToClientLive.
+C02_Propagates(s, o) == Clean(s, o) => o.stalls \cap {"TRecv", "TSawFin", "CRecv", "CSawFin", "Dial"} = {}
 
 (* ---- C06 --------------------------------------------------------------- *)
 C06_Silent(s, o) == ~MayAuth(s, o) => o.wire.cr = 0 /\ DataOf(o.clog) = <<>>
@@ -520,8 +533,9 @@ ExpectedStatus(s, o) ==
                       \cup (IF possible /\ h = "replayC" THEN {"ERR_REPLAY_CLIENT"} ELSE {})
                       \cup (IF possible /\ h = "replayS" THEN {"ERR_REPLAY_SERVER"} ELSE {})
   ELSE IF ~MustAuth(s, o) THEN {"ERR_CIPHER", "ERR_READ_ADDRESS", "ERR_ADDRESS", "ERR_CONNECT", "ERR_RELAY_CLIENT", "ERR_RELAY_TARGET", "OK"}
-  ELSE IF o.dials = 0 /\ s.tk # "deny" THEN {"ERR_READ_ADDRESS"}
-  ELSE IF s.tk = "deny" THEN {"ERR_ADDRESS", "ERR_READ_ADDRESS"}
+  ELSE IF AddrMissing(o) \/ (\E i \in 1..Len(o.csent) : o.csent[i].k = "badaddr") THEN {"ERR_READ_ADDRESS"}
+  ELSE IF ~AddrSent(o) THEN {"ERR_READ_ADDRESS", "ERR_ADDRESS", "ERR_CONNECT", "ERR_RELAY_CLIENT", "ERR_RELAY_TARGET", "OK"}
+  ELSE IF s.tk = "deny" THEN {"ERR_ADDRESS"}
   ELSE IF s.tk = "refuse" THEN {"ERR_CONNECT"}
   ELSE IF OHasBad(o) THEN {"ERR_RELAY_CLIENT"}
   ELSE IF s.trst THEN {"ERR_RELAY_CLIENT", "ERR_RELAY_TARGET"}
@@ -536,7 +550,7 @@ C15_Counters(s, o) ==
 
 \* families, as evaluated on records of the real code.  "Any" may be evaluated at any moment of a run (monotone in the
 \* observers' logs); "Final" only when the run is over and every observer has read to the end of its stream.
-PropsAny == {"C02_TargetPrefix", "C02_ClientPrefix", "C02_FinToTargetAfterAll", "C02_FinToClientAfterAll",
+PropsAny == {"C02_TargetPrefix", "C02_ClientPrefix", "C02_Propagates", "C02_FinToTargetAfterAll", "C02_FinToClientAfterAll",
              "C06_Silent", "C06_NoEarlyClose", "C06_DrainHolds", "C15_Language", "C15_AuthOnlyIfAuthenticated"}
 PropsFinal == PropsAny \cup {"C02_CompleteAtClose", "C06_CloseNotEarly", "C06_CloseNotLate", "C06_NormalClose",
                              "C15_ProbeIffFailed", "C15_ProbeBytes", "C15_Status", "C15_OkIffComplete", "C15_Counters"}
@@ -546,6 +560,7 @@ Holds(p, s, o) ==
     [] p = "C02_FinToTargetAfterAll" -> C02_FinToTargetAfterAll(s, o)
     [] p = "C02_FinToClientAfterAll" -> C02_FinToClientAfterAll(s, o)
     [] p = "C02_CompleteAtClose" -> C02_CompleteAtClose(s, o)
+    [] p = "C02_Propagates" -> C02_Propagates(s, o)
     [] p = "C06_Silent" -> C06_Silent(s, o)
     [] p = "C06_NoEarlyClose" -> C06_NoEarlyClose(s, o)
     [] p = "C06_CloseNotEarly" -> C06_CloseNotEarly(s, o)
@@ -586,6 +601,10 @@ C02_Buf50First == \A c \in Conns : st[c].buf50 => st[c].pc \in {"authd", "readad
 \* urgency it closes in the same instant)
 C06_NotStuckAfterDeadline ==
   \A c \in Conns : st[c].pc \in {"read50", "auth", "absorb", "probe"} /\ Due(c) => ~MainBlocked(c)
+\* liveness (LiveSpecProxyOnly): a half-close of one peer reaches the other together with all data before it, whatever
+\* the other direction does (its peer may stay silent and open for ever)
+C02_FinToTargetLive == \A c \in Conns : (Clean(st[c], ob[c]) /\ st[c].cfin /\ st[c].tgt = "up") ~> (Has(ob[c].tlog, 0) /\ DataOf(ob[c].tlog) = Payload(ob[c]))
+C02_FinToClientLive == \A c \in Conns : (Clean(st[c], ob[c]) /\ st[c].tfin) ~> (Has(ob[c].clog, 0) /\ DataOf(ob[c].clog) = Ids(ob[c].tsent))
 \* liveness (LiveSpec): every accepted connection ends, hence (CompleteAtClose) everything sent is delivered
 C02_Live == \A c \in Conns : (st[c].pc = "start") ~> (st[c].pc = "done")
 
